@@ -72,6 +72,8 @@ def initial_owner(W, chk):
 
 
 def run(W, chk):
+    from rules.common import borrow
+    borrow(W, chk, "C08", {"CUT-expand-own-position", "CUT-lock-for-sender"}, "the pool manager acts as a delegate only for the position's owner")
     initial_owner(W, chk)
     # ---- matrix completeness
     for c in CONTRACTS:
